@@ -194,9 +194,10 @@ type verdict struct {
 	StuckBelow bool   `json:"stuck_below"` // stage 4 ended on a valid block of the history that is not the most-work tip
 	// state right after the reopen (stage 3 passed: tip and unspent set agree with the model), for the comparison
 	// with what the client's own start-up code reaches on a copy of the same directory
-	OpenTip     string `json:"open_tip,omitempty"`
-	OpenRecords int    `json:"open_records,omitempty"`
-	OpenDigest  string `json:"open_digest,omitempty"`
+	SecondDeaths int    `json:"second_deaths,omitempty"` // the directory was opened once more as a second process death right after the restart leaves it
+	OpenTip      string `json:"open_tip,omitempty"`
+	OpenRecords  int    `json:"open_records,omitempty"`
+	OpenDigest   string `json:"open_digest,omitempty"`
 }
 
 // utxoDigest: number of stored records and the xor of their SHA-256 (the same function as in the client-side driver
@@ -288,6 +289,42 @@ func recoverAndCheck(c Case, dir, logfn string) (res verdict) {
 	}
 	res.OpenTip = hex.EncodeToString(h[:])
 	res.OpenRecords, res.OpenDigest = utxoDigest(node.Ch.Unspent)
+	// 3b. the process dies AGAIN right after this start-up, before anything new was saved (nothing is closed; the node
+	// is quiescent: no save and no block write is under way): the directory as it is on the disk now must open as well,
+	// at a valid tip with the unspent set of that tip's chain
+	if sha256.Sum256([]byte(dir))[0]%2 == 0 || os.Getenv("VERIF_C07_ALWAYS_AGAIN") != "" {
+		img := filepath.Join(filepath.Dir(dir), "again-"+filepath.Base(dir))
+		if err := copyDir(dir, img); err == nil {
+			nodeB, errB := env.Open(img, ms.P, c.opts())
+			if errB != nil {
+				res.Err = "second process death right after the restart: reopening failed: " + errB.Error()
+				return
+			}
+			hB, heightB := nodeB.Tip()
+			var tipB *sim.MNode
+			for _, n := range ms.Nodes {
+				if n.Idx.Hash == hB {
+					tipB = n
+				}
+			}
+			switch {
+			case tipB == nil || !ms.Valid(tipB):
+				res.Err = fmt.Sprintf("second process death right after the restart: recovered tip %x (height %d) is not a valid block of the history", hB[:6], heightB)
+			case tipB != ms.Root && tipB.DelivStep > inflight:
+				res.Err = fmt.Sprintf("second process death right after the restart: recovered tip %s was delivered in step %d, the process died in step %d", tipB.Describe(), tipB.DelivStep, inflight)
+			default:
+				if d := env.DiffEntries(nodeB.DumpUTXO(), env.EntriesOf(tipB.View)); d != "" {
+					res.Err = fmt.Sprintf("second process death right after the restart: at tip %s the unspent-output set differs from the replay of its chain:\n%s", tipB.Describe(), d)
+				}
+			}
+			nodeB.Close()
+			os.RemoveAll(img)
+			if res.Err != "" {
+				return
+			}
+			res.SecondDeaths = 1
+		}
+	}
 	// clean shutdown: exactly the pre-shutdown state
 	if closed && tip != ms.Tip {
 		// (a tie resolved differently inside the F21 class is still a maximal valid tip)
@@ -551,6 +588,9 @@ func executeOpt(c Case, wantTrace, noClose bool) (r runResult) {
 		}
 		r.viol = fmt.Sprintf("%s killed the process (rc=%d, stage %d): %s", what, rc2, r.v.Stage, tail(out2))
 		return
+	}
+	if r.v.SecondDeaths > 0 {
+		pbt.AddExtra("second_process_death_right_after_the_restart", int64(r.v.SecondDeaths))
 	}
 	if !r.v.OK {
 		r.viol = r.v.Err
